@@ -323,7 +323,23 @@ def enumerated(tier, seed):
               ("print", ("or", ("mcall", V("es"), "index_of", [V("ea")]), I(0 - 1))), ("print", ("or", ("mcall", V("es"), "index_of", [V("eb")]), I(0 - 1))),
               ("print", ("or", ("mcall", V("es"), "index_of", [("new", "E", [I(1)])]), I(0 - 1))),
               ("setf", V("ea"), "v", I(5)), ("print", ("or", ("mcall", V("es"), "index_of", [V("ea")]), I(0 - 1))), ("print", F(("index", V("es"), I(1)), "v"))]
-    return [{"stmts": inlist, "labels": ["feat:index_of-object-in-list"], "nt": True, "raw": True},
+    # a method call chained directly onto a call of a `-> Self` method that returns ANOTHER object (its argument, a fresh
+    # twin): the chained method runs on the object that was returned, not on the first receiver
+    chain = [("class", "Ch", [("v", "int")], [("v", "int")], [("setf", SELF, "v", V("v"))],
+              [("val", [], "int", [("return", F(SELF, "v"))]),
+               ("bump", [("d", "int")], ("cls", "Self"), [("opassign", F(SELF, "v"), "+=", V("d")), ("return", SELF)]),
+               ("other", [("o", ("cls", "Self"))], ("cls", "Self"), [("return", V("o"))]),
+               ("twin", [], ("cls", "Self"), [("return", ("new", "Self", [("bin", "+", F(SELF, "v"), I(100))]))])]),
+             G("ca", None, ("new", "Ch", [I(4)])), G("cb", None, ("new", "Ch", [I(100)])),
+             ("expr", ("mcall", ("mcall", V("ca"), "other", [V("cb")]), "bump", [I(10)])),
+             ("print", F(V("ca"), "v")), ("print", F(V("cb"), "v")),
+             ("print", ("mcall", ("mcall", ("mcall", V("ca"), "twin", []), "bump", [I(5)]), "val", [])), ("print", F(V("ca"), "v")),
+             ("print", ("bin", "is", ("mcall", ("mcall", V("ca"), "other", [V("cb")]), "bump", [I(1)]), V("cb"))),
+             ("print", ("bin", "is", ("mcall", ("mcall", V("ca"), "twin", []), "bump", [I(1)]), V("ca"))),
+             ("print", ("mcall", ("mcall", ("mcall", V("ca"), "bump", [I(1)]), "other", [V("cb")]), "val", [])),
+             ("print", F(V("ca"), "v")), ("print", F(V("cb"), "v"))]
+    return [{"stmts": chain, "labels": ["feat:method-chained-on-returned-object"], "nt": True, "raw": True},
+            {"stmts": inlist, "labels": ["feat:index_of-object-in-list"], "nt": True, "raw": True},
             {"stmts": esc, "labels": ["feat:self-escapes-from-constructor"], "nt": True, "raw": True},
             {"stmts": coll, "labels": ["feat:field-named-like-a-global"], "nt": True, "raw": True},
             {"stmts": two, "labels": ["fixed:chain-identity"], "nt": True, "raw": True},
